@@ -127,7 +127,9 @@ class AnalyticFlow(Flow):
         # round-trip through the output dtype so that log q belongs to the
         # coordinates actually handed out
         xo = self._out(x)
-        return xo, self._out(self._logpdf(tonp(xo)))
+        lq = self._out(self._logpdf(tonp(xo)))
+        self.last_draw = (tonp(xo).astype(np.float64).copy(), tonp(lq).astype(np.float64).copy())  # for oracles that need the batch itself
+        return xo, lq
 
     def sample(self, n_samples, xp=None):
         return self.sample_and_log_prob(n_samples)[0]
